@@ -72,6 +72,7 @@ type Sim struct {
 	panics  []PanicRec
 	stats   map[string]int
 	idNames map[string]string
+	anonKids map[string]int
 
 	step     int
 	MaxSteps int
@@ -371,9 +372,14 @@ func Go(site string, f func()) {
 		s.mu.Unlock()
 		t = &Task{Name: fmt.Sprintf("%s/%s#%d", parent.Name, shortSite(site), n), Inc: parent.Inc, sim: s}
 	} else {
+		// anonymous parent: number the children per spawn site (independent of
+		// the parking sequence counter, which is not schedule-stable)
 		s.mu.Lock()
-		s.seq++
-		n := s.seq
+		if s.anonKids == nil {
+			s.anonKids = map[string]int{}
+		}
+		s.anonKids[site]++
+		n := s.anonKids[site]
 		s.mu.Unlock()
 		t = &Task{Name: fmt.Sprintf("~/%s#%d", shortSite(site), n), sim: s}
 	}
@@ -560,6 +566,7 @@ func (s *Sim) Step(idle time.Duration) StepResult {
 		for i := 1; i < len(ready); i++ {
 			if ready[i].key == ready[i-1].key {
 				s.Stat("sched_key_ties")
+				s.Stat("tie:" + ready[i].key)
 			}
 		}
 		// "let time pass first"
@@ -675,4 +682,19 @@ func (s *Sim) Run(idle time.Duration, done func() bool) StepResult {
 			return r
 		}
 	}
+}
+
+// Adopt registers the calling goroutine as a named task (no-op when it is
+// already registered). Used by simulated resources to give goroutines started
+// by non-instrumented code a stable identity.
+func (s *Sim) Adopt(name string) {
+	id := goid()
+	if id == s.ctrl {
+		return
+	}
+	s.mu.Lock()
+	if _, ok := s.tasks[id]; !ok {
+		s.tasks[id] = &Task{Name: name, sim: s}
+	}
+	s.mu.Unlock()
 }
